@@ -23,14 +23,20 @@ func init() { reg.Register(&reg.Prop{ID: "C13", Run: Run, Replay: Replay}) }
 //	all  i    read member i's Data from its current position to the end
 //	part i    io.ReadFull of 2 bytes from member i's Data at its current position
 //	seek i    Data.Seek(0, SeekStart), then read to the end
+//	tar  i c  IsTarfile / Tarfile of member i (after Seek(0)): list the tar, call the closer c (1 or 2) times, then
+//	          Seek(0) and re-read the member (tar.go)
 type Op struct {
 	K string `json:"k"`
 	I int    `json:"i,omitempty"`
+	C int    `json:"c,omitempty"`
 }
 
 func (o Op) String() string {
 	if o.K == "next" {
 		return "next"
+	}
+	if o.K == "tar" {
+		return fmt.Sprintf("tar(%d,close x%d)", o.I, o.C)
 	}
 	return fmt.Sprintf("%s(%d)", o.K, o.I)
 }
@@ -41,6 +47,16 @@ type In struct {
 	Members []gen.ArmMember
 	Conv    int // 0: bytes.Reader; 1: a full read ending exactly at end of input returns (n, io.EOF)
 	Ops     []Op
+	// Tars, when set, is parallel to Members: what member i's bytes are as a tar (nil: no claim), see tar.go.
+	Tars []*TarSpec `json:",omitempty"`
+	// Dec, when set, makes this a deb.DecompressorFor input instead of an archive.
+	Dec *DecIn `json:",omitempty"`
+}
+
+// DecIn: DecompressorFor(Ext) applied to Encoded must yield Payload.
+type DecIn struct {
+	Ext              string
+	Encoded, Payload []byte
 }
 
 func features(conv int) []string {
@@ -55,6 +71,7 @@ func features(conv int) []string {
 type fail struct{ clause, want, got string }
 
 type sess struct {
+	tars []*TarSpec
 	exp  []gen.ArmExpect
 	ar   *deb.Ar
 	got  []*deb.ArEntry
@@ -145,6 +162,8 @@ func (s *sess) step(op Op) (f *fail) {
 	}
 	r, data, pos := s.got[op.I].Data, s.exp[op.I].Data, s.pos[op.I]
 	switch op.K {
+	case "tar":
+		return s.tarStep(op)
 	case "all", "seek":
 		if op.K == "seek" {
 			off, err := r.Seek(0, io.SeekStart)
@@ -197,10 +216,15 @@ func expectAll(ms []gen.ArmMember) []gen.ArmExpect {
 
 // runOps executes the whole sequence; it returns the index of the failing operation (-1: LoadAr) and the failure.
 func runOps(b []byte, exp []gen.ArmExpect, conv int, ops []Op) (int, *fail) {
+	return runOpsT(b, exp, nil, conv, ops)
+}
+
+func runOpsT(b []byte, exp []gen.ArmExpect, tars []*TarSpec, conv int, ops []Op) (int, *fail) {
 	s, f := open(b, exp, conv)
 	if f != nil {
 		return -1, f
 	}
+	s.tars = tars
 	for i, op := range ops {
 		if f := s.step(op); f != nil {
 			return i, f
@@ -211,13 +235,23 @@ func runOps(b []byte, exp []gen.ArmExpect, conv int, ops []Op) (int, *fail) {
 
 // checkSeq is the oracle for one input.
 func checkSeq(scen string, in In) *mc.Violation {
+	if in.Dec != nil {
+		var f *fail
+		if p, msg := mc.Guard(func() { f = checkDecompressor(in.Dec.Ext, in.Dec.Encoded, in.Dec.Payload) }); p {
+			f = &fail{"no-panic", "DecompressorFor returns", "panic: " + msg}
+		}
+		if f == nil {
+			return nil
+		}
+		return mc.V(scen, f.clause, in, f.want, f.got)
+	}
 	for _, m := range in.Members {
 		if !wellFormed(m) {
 			return nil // the property speaks about well-formed archives only
 		}
 	}
 	b := gen.ArmBuild(in.Members)
-	i, f := runOps(b, expectAll(in.Members), in.Conv, in.Ops)
+	i, f := runOpsT(b, expectAll(in.Members), in.Tars, in.Conv, in.Ops)
 	if f == nil {
 		return nil
 	}
